@@ -128,8 +128,10 @@ def main(argv=None):
         if tot.truncated and not getattr(h, "partial_ok", False):
             inconclusive.append((h.name, "exploration truncated by its budget"))
         elif tot.truncated:
+            rest = ("the unexplored remainder is covered by the thorough tier" if a.tier == "quick"
+                    else "the unexplored remainder is NOT covered by this run")
             print(f"PARTIAL {h.name}: budgeted exploration stopped after {tot.paths} paths (each explored path is decided "
-                  f"by the solver; the unexplored remainder is covered by the thorough tier)")
+                  f"by the solver; {rest})")
         if tot.inconclusive and getattr(h, "partial_ok", False):
             print(f"PARTIAL {h.name}: {tot.inconclusive} paths left undecided ({tot.inconclusive_reasons}); they count as unexplored")
         elif tot.inconclusive:
